@@ -16,6 +16,7 @@ VOP = 'beartype/vale/_is/_valeisoper.py'
 DM = 'beartype/door/_cls/doormeta.py'
 CCH = 'beartype/_util/cache/utilcachecall.py'
 C3119 = 'beartype/_util/cls/pep/clspep3119.py'
+CONV = 'beartype/_check/convert/convmain.py'
 FLOOR_APPLIED = 10
 
 
@@ -24,6 +25,13 @@ def _first_raise(scope, new_exc):
         return replace_where(tree, lambda n: isinstance(n, ast.Raise) and n.exc is not None,
                              lambda n: (setattr(n, 'exc', expr(new_exc)) or n), scope=scope)
     return fn
+
+
+def _prepend(tree, scope, code):
+    fn = find_def(tree, scope)
+    i = 1 if (isinstance(fn.body[0], ast.Expr) and isinstance(getattr(fn.body[0], 'value', None), ast.Constant)) else 0
+    fn.body[i:i] = stmts(code)
+    return tree
 
 
 VARIANTS = {
@@ -62,6 +70,13 @@ VARIANTS = {
         t, lambda n: isinstance(n, ast.ExceptHandler) and n.type is not None and ast.unparse(n.type) == 'Exception',
         lambda n: (setattr(n, 'type', expr('TypeError')) or n), scope='_die_unless_object_builtin_checkable'), 'C11.R11',
         'a metaclass __instancecheck__ raising ValueError lets a bare ValueError out of @beartype (seeded C11-11)'),
+    # ---- R12: raw annotation compared by identity only --------------------------------------------------------------
+    'sanify-compares-raw-hint-by-equality': tseeded(CONV, lambda t: replace_where(
+        t, lambda n: isinstance(n, ast.Compare) and ast.unparse(n) == 'hint_coerced is not hint',
+        lambda n: expr('hint_coerced != hint'), scope='sanify_hint_root_func'), 'C11.R12',
+        'an annotation whose __ne__ raises or returns an array escapes @beartype as a bare ValueError (seeded C11-12)'),
+    'is-hint-truth-tests-raw-hint': tseeded(HT, lambda t: _prepend(t, 'is_hint', 'if not hint:\n    return False'), 'C11.R12',
+                                            'numpy.zeros(3) as annotation: bare ValueError from the truth test'),
     # ---- neutral ---------------------------------------------------------------------------------------------------
     'n-roundtrip-conftest': roundtrip(CT),
     'n-roundtrip-checkmake': roundtrip(CMK),
